@@ -136,7 +136,11 @@ func (server *Server) registerCoreExecutors() {
 		if err != nil {
 			return nil, err
 		}
-		ttlTime := time.Now().Add(time.Duration(ttl) * time.Second)
+		ttlDuration, err := newExpireDuration(cmd, "ttl", ttl, time.Second)
+		if err != nil {
+			return nil, err
+		}
+		ttlTime := time.Now().Add(ttlDuration)
 		opt, err := nextExpireArgument(cmd, ttlTime, args)
 		if err != nil {
 			return nil, err
@@ -258,7 +262,10 @@ func (server *Server) registerCoreExecutors() {
 			return nil, err
 		}
 		opt := newDefaultSetOption()
-		opt.EX = time.Duration(seconds) * time.Second
+		opt.EX, err = newExpireDuration(cmd, "seconds", seconds, time.Second)
+		if err != nil {
+			return nil, err
+		}
 
 		return server.userCommandHandler.Set(conn, key, val, opt)
 	})
